@@ -208,6 +208,22 @@ def run_case(case: Dict[str, Any], ctx) -> None:
     ctx.count("closed-form:input-grads-compared")
     if gerr > 1e-11 * len(layers) * 8:
         ctx.violation(key + ":input-gradient-is-not-derivative-of-closed-form", f"rel err {gerr:.2e}", case=case)
+    # ---- the same layers evaluated WITHOUT autograd recording (no_grad / inference_mode): same forward values ------------
+    if case["seed"] % 3 != 2:
+        mode = torch.no_grad if case["seed"] % 3 == 0 else torch.inference_mode
+        try:
+            with mode():
+                ya_n = explicit(x0.clone(), record=False)
+                yb_n = applied(x0.clone())
+        except Exception as e:
+            ctx.violation(key + f":raises-under-{mode.__name__}:" + exc_key(e), repr(e), case=case)
+            return
+        ctx.count("mode:" + mode.__name__ + "-compared")
+        for nm, yn in (("split-f-add", ya_n), ("residual_apply", yb_n)):
+            errn = (yn - yc.detach()).abs().max().item() / scale
+            if errn > 1e-12 * len(layers) * 8:
+                ctx.violation(key + f":{nm}-differs-from-closed-form-under-{mode.__name__}", f"rel err {errn:.2e}", case=case)
+                break
     # residual_apply identical to the explicit sequence
     ctx.count("apply:bit-compared")
     if not bits_equal(ya.detach(), yb.detach()) or not bits_equal(xa.grad, xb.grad):
